@@ -169,6 +169,9 @@ def finish(pid, level, theorems, proof, corr, t0, build_res, extra_trusted=(), a
     sd = seed()
     os.makedirs(os.path.join(VERIF, "replays"), exist_ok=True)
     os.makedirs(os.path.join(VERIF, "evidence"), exist_ok=True)
+    import glob
+    for old in glob.glob(os.path.join(VERIF, "replays", "%s-%d-*.json" % (pid, sd))):
+        os.remove(old)
     open_k, _fixed = known_findings()
     failures = list(corr.get("failures", []))
     broken = []
